@@ -9,6 +9,7 @@ from ..engine.mutate import Mutant, Variant, in_function, replace_once
 from ..engine.runner import Rule
 from ..engine.source import AnalysisError
 from . import C07
+from . import shared
 from .common import callee_name, calls_in
 
 EXPLANATION = (
@@ -184,6 +185,9 @@ def rule_recovery(ctx):
     for st in ctx.sql.stmts_in(ri.fq):
         if st.kind == "UPDATE":
             ctx.check("detached" not in st.text, ri.fq, "raw reset also covers detached steps", "the reset filters on detached: a detached step that was running stays RUNNING for ever", "no detached filter")
+    # the startup reset re-pends attached FAILED steps only; a step that was running *and detached* at the kill stays
+    # FAILED until its creator declares it again, and after_recycle is what retries it then
+    shared.check_after_recycle_repends(ctx, "a step that was interrupted while detached stays FAILED after the restart and is never retried, although the uninterrupted build would have completed it")
     ms = ctx.prog.func("workflow.Workflow.mark_step_pending")
     ctx.check("if state in (StepState.SUCCEEDED, StepState.FAILED):" in ast.unparse(ms.node), ms.fq, "FAILED steps have their BUILT outputs outdated", "mark_step_pending no longer outdates outputs for FAILED", "outdates")
     rf = ctx.prog.func("startup.rescan_files")
@@ -264,6 +268,7 @@ RULES = [
 ]
 
 MUTANTS = [
+    Mutant("recycled-failed-stays-failed", "step.py", in_function("Step.after_recycle", replace_once("if state == StepState.FAILED or (state == StepState.SUCCEEDED and self.get_hash() is None):", "if state == StepState.SUCCEEDED and self.get_hash() is None:")), ("R-C05-3",)),
     Mutant("delete-detached-only-after-runs", "builder.py", in_function("Builder.finalize", replace_once("            async with self.db:\n                self.workflow.delete_detached()\n", "            if self.scheduler.run_counter > 0:\n                async with self.db:\n                    self.workflow.delete_detached()\n")), ("R-C05-7",)),
     Mutant("sql-outside-region", "director.py", in_function("DirectorHandler.hold_dispatch", lambda s: s.replace("        async with self.db:\n            step = self.scheduler.get_job_step(job_i)\n            step.hold()\n", "        step = self.scheduler.get_job_step(job_i)\n        step.hold()\n") if "step.hold()" in s else None), ("R-C05-1",)),
     Mutant("nested-region", "executor.py", in_function("Executor._finalize_failed_run", replace_once("            run.step.mark_completed(None, False)\n", "            run.step.mark_completed(None, False)\n            await self._flush_step_counts()\n")), ("R-C05-1",)),
